@@ -432,17 +432,22 @@ example : isUuid (some "xx".toList) = false := by decide +kernel
 example : Disk.complete (freshFile demoId) := by decide
 /-- the library's own version is readable, writable and needs an id -/
 example : Readable libX libY ∧ SameVersion libX libY libZ ∧ From120 libX libY libZ := by decide
-/-- an older minor is readable but not writable; a newer minor or another major is neither -/
-example : Readable 1 1 ∧ ¬ SameVersion 1 1 0 ∧ ¬ From120 1 1 9 ∧ ¬ Readable 1 3 ∧ ¬ Readable 2 0 ∧ ¬ Readable 0 9 := by
+/-- an older minor is readable but not writable; a newer minor or another major is neither; 1.1.9
+needs no id (all relative to the library version, so a version bump keeps them true) -/
+example : Readable libX (libY - 1) ∧ ¬ SameVersion libX (libY - 1) 0 ∧ ¬ Readable libX (libY + 1)
+    ∧ ¬ Readable (libX + 1) 0 ∧ ¬ Readable (libX - 1) libY ∧ ¬ SameVersion libX libY (libZ + 1)
+    ∧ ¬ From120 1 1 9 ∧ From120 1 2 0 := by
   decide
 def demoFile (v : List Int) (id : Option Str) : Disk :=
   { freshFile demoId with header := ⟨some fileFormat, some v, id⟩ }
-example : openFile modeReadOnly (some (demoFile [1, 1, 0] none)) []
-    = (some (demoFile [1, 1, 0] none), .ok ⟨modeReadOnly, .rdonly⟩) := by rfl
-example : (openFile modeReadOnly (some (demoFile [1, 2, 0] none)) []).2 = .error (.err .runtimeError) := by rfl
-example : (openFile modeReadWrite (some (demoFile [1, 2, 0] (some demoId))) []).2 = .error (.err .runtimeError) := by
-  rfl
+example : openFile modeReadOnly (some (demoFile [libX, libY - 1, 0] (some demoId))) []
+    = (some (demoFile [libX, libY - 1, 0] (some demoId)), .ok ⟨modeReadOnly, .rdonly⟩) := by rfl
+example : (openFile modeReadOnly (some (demoFile libVersion none)) []).2 = .error (.err .runtimeError) := by rfl
+example : (openFile modeReadWrite (some (demoFile [libX, libY, libZ + 1] (some demoId))) []).2
+    = .error (.err .runtimeError) := by rfl
 example : (openFile modeReadWrite (some (demoFile libVersion (some demoId))) []).2 = .ok ⟨modeReadWrite, .rdwr⟩ := by
   rfl
+example : (openFile modeReadOnly (some (demoFile [1, 1, 9] none)) []).2
+    = if Readable 1 1 then .ok ⟨modeReadOnly, .rdonly⟩ else .error (.err .runtimeError) := by rfl
 
 end Nix.C11
